@@ -661,6 +661,53 @@ theorem evalAll_spec (hwf : WF wb) (hl : Local wb f) (eqv : α → α → Bool) 
     · exact r.2.1 a (e.cached han hka)
     · exact r.2.2 a ha han hka
 
+/-! ### list forms -/
+
+theorem setMany_inv (hwf : WF wb) (hl : Local wb f) (eqv : α → α → Bool) (l : List (Nat × α)) :
+    ∀ {s : State α}, Inv wb f s → Inv wb f (setMany wb eqv l s) := by
+  induction l with
+  | nil => intro s hs; exact hs
+  | cons p r ih =>
+    intro s hs
+    obtain ⟨i, v⟩ := p
+    unfold setMany
+    split
+    · exact ih (setValue_inv hwf hl eqv hs i v)
+    · exact hs
+
+/-- `evaluate([a…])` returns the from-scratch value of each address and keeps the invariant and the inputs -/
+theorem evalMany_spec (hwf : WF wb) (hl : Local wb f) (l : List Nat) :
+    ∀ {s : State α}, Inv wb f s → (∀ a, a ∈ l → a < wb.n) →
+      (evalMany wb f l s).1 = l.map (denote wb f s.inp) ∧ Inv wb f (evalMany wb f l s).2 ∧
+      (evalMany wb f l s).2.inp = s.inp := by
+  induction l with
+  | nil => intro s hs _; exact ⟨rfl, hs, rfl⟩
+  | cons a r ih =>
+    intro s hs hl'
+    have e := evaluate_spec hwf hl hs a
+    have q := ih e.inv (fun b hb => hl' b (by simp [hb]))
+    simp only [evalMany, List.map_cons]
+    refine ⟨?_, q.2.1, q.2.2.trans e.inp⟩
+    rw [q.1, e.val (hl' a (by simp)), e.inp]
+
+theorem evalMany_inv (hwf : WF wb) (hl : Local wb f) (l : List Nat) :
+    ∀ {s : State α}, Inv wb f s → Inv wb f (evalMany wb f l s).2 := by
+  induction l with
+  | nil => intro s hs; exact hs
+  | cons a r ih => intro s hs; exact ih (evaluate_spec hwf hl hs a).inv
+
+theorem runX_inv (hwf : WF wb) (hl : Local wb f) (eqv : α → α → Bool) (h : List (OpX α)) :
+    ∀ {s : State α}, Inv wb f s → Inv wb f (runX wb f eqv s h) := by
+  induction h with
+  | nil => intro s hs; exact hs
+  | cons o h ih =>
+    intro s hs
+    apply ih
+    cases o with
+    | op o => exact step_inv hwf hl eqv hs o
+    | setMany l => exact setMany_inv hwf hl eqv l hs
+    | evalMany l => exact evalMany_inv hwf hl l hs
+
 theorem initNoData_inv (inp : Nat → α) : Inv wb f (initNoData inp) :=
   ⟨fun m v h => by simp [initNoData] at h, fun m h => by simp [initNoData] at h, Or.inl fun _ => rfl⟩
 
